@@ -538,6 +538,25 @@ def run_real(spec, req):
     res = {"outs": [], "error": None, "logs": [], "pre_walk": None, "flow_uuids": None}
     with capture_logs() as cap:
         try:
+            if spec["mode"] == "sheets" and spec.get("via") == "create_flows":
+                # the converter entry point, from CSV files on disk (one render, no object access)
+                import os
+                import shutil
+                import tempfile
+                from rpft.converters import create_flows
+
+                d = tempfile.mkdtemp(prefix="c06_")
+                try:
+                    for name, text in build_sheets(spec).items():
+                        with open(os.path.join(d, name + ".csv"), "w", encoding="utf-8", newline="") as fh:
+                            fh.write(text)
+                    out = create_flows([d], None, "csv")
+                finally:
+                    shutil.rmtree(d, ignore_errors=True)
+                res["outs"].append(json.loads(json.dumps(out)))
+                res["flow_uuids"] = [f["uuid"] for f in out["flows"]]
+                res["logs"] = list(cap.records)
+                return res
             if spec["mode"] == "sheets":
                 container = ContentIndexParser(_mem_reader(build_sheets(spec))).parse_all()
             elif spec["mode"] == "dict":
@@ -870,6 +889,9 @@ def gen_spec(rng: random.Random, mode: str, avoid_known=True):
         tags = ["f"] * len(spec["flows"]) + ["c"] * len(spec["campaigns"]) + (["t"] if spec["triggers"] else [])
         rng.shuffle(tags)
         spec["interleave"] = tags
+    if mode == "sheets" and rng.random() < 0.04:
+        spec["via"] = "create_flows"
+        spec["renders"] = 1
     if avoid_known:
         req = model_request(spec)
         if trigger_only_referenced(req) or block_objid_lost(spec):
@@ -938,6 +960,8 @@ def _fold(ck, specs, results, stream):
         key = json.dumps(spec, sort_keys=True, ensure_ascii=False)
         ck.case(key, nontrivial=r["n_occ"] >= 2, sample={"mode": spec["mode"], "spec": spec} if r["n_occ"] >= 6 else None)
         ck.count(f"{stream}.{spec['mode']}")
+        if spec.get("via"):
+            ck.count(f"{stream}.sheets.via_create_flows_csv_files")
         ck.count(f"renders={spec['renders']}")
         ck.count("outcome." + (info["error"] or "rendered"))
         ck.count("occurrences", r["n_occ"])
@@ -980,6 +1004,15 @@ def run(ck: core.Check):
     if not core.DRIVER_BIN.exists():
         raise core.Infra("driver not built:\n" + ck.lean.log[-2000:])
     import rpft.rapidpro.models.containers  # noqa: F401
+
+    # constructor invariant behind `defined_flow_uuid` (hypothesis `d.given = some u`; the Lean witness
+    # defined_flow_uuid_needs_given cannot be built with the real classes)
+    from rpft.rapidpro.models.containers import FlowContainer
+    for u in (None, ""):
+        ck.evaluations += 1
+        a, b = FlowContainer("x", uuid=u).uuid, FlowContainer.from_dict({"name": "x", "uuid": u, "nodes": []}).uuid
+        if not (a and b and UUID4.match(a) and UUID4.match(b)):
+            ck.violation("a flow definition without uuid does not get one at construction", {"uuid_argument": u, "got": [a, b]})
 
     quick = ck.tier == "quick"
     n_cases = 12000 if quick else 200000
